@@ -230,6 +230,22 @@ mod verif_kani {
         kani::cover!(r < 0, "negative count rejected");
         kani::cover!(r > u32::MAX as i64, "count beyond u32");
     }
+    /// cheap (quick tier): exactly the counts 0..=63 are accepted, for every i64 count and both operators
+    #[kani::proof]
+    fn ceval_shift_count_range() {
+        let l: i64 = kani::any();
+        let r: i64 = kani::any();
+        let op = if kani::any() { ShiftOp::LeftShift } else { ShiftOp::RightShift };
+        let res = eval_shift_expression(op, ConstantValue::Integer(l), ConstantValue::Integer(r));
+        if r < 0 || r >= 64 {
+            assert!(is_err(&res));
+        } else {
+            assert!(int_of(&res).is_some());
+        }
+        forget(res);
+        kani::cover!(r == -4294967295, "count = 1 modulo 2^32");
+        kani::cover!(r == 4294967296, "count = 0 modulo 2^32");
+    }
     #[kani::proof]
     fn ceval_shift_left() { shift(ShiftOp::LeftShift) }
     #[kani::proof]
